@@ -47,23 +47,27 @@ class SymTables:
     (J, N, Pa, W are all 1e3) become distinguishable."""
 
     def __init__(self, units=None, prefixes=None):
-        self.units = units
-        self.prefixes = prefixes
-        self.g = {}
-        self.f = {}
+        P, U = tables()
+        self.units = units if units is not None else list(U.keys())
+        self.prefixes = prefixes if prefixes is not None else list(P.keys())
+        self.g = {p: z3.Real('g_' + _safe(p)) for p in self.prefixes}
+        self.f = {u: z3.Real('f_' + _safe(u)) for u in self.units}
         self.saved = []
+        self.actual_g = {p: float(P[p].magnitude) for p in self.prefixes}     # read before anything is made symbolic
+        self.actual_f = {u: float(U[u].magnitude) for u in self.units}
+
+    def actual_pairs(self):
+        return [(self.g[p], self.actual_g[p]) for p in self.prefixes] + [(self.f[u], self.actual_f[u]) for u in self.units]
 
     def __enter__(self):
         P, U = tables()
-        for p in (self.prefixes if self.prefixes is not None else list(P.keys())):
+        for p in self.prefixes:
             row = P[p]
             self.saved.append((row, row.magnitude))
-            self.g[p] = z3.Real('g_' + _safe(p))
             row.magnitude = SymReal(self.g[p])
-        for u in (self.units if self.units is not None else list(U.keys())):
+        for u in self.units:
             row = U[u]
             self.saved.append((row, row.magnitude))
-            self.f[u] = z3.Real('f_' + _safe(u))
             row.magnitude = SymReal(self.f[u])
         return self
 
@@ -257,9 +261,10 @@ def ref_atom(text):
         e = _fr.Fraction(int(parts[0]), int(parts[1]) if len(parts) > 1 else 1)
         text = text[:m.start()]
     pre, base = ref_resolve(text)
-    f = float(_U[base].magnitude) * (float(_P[pre].magnitude) if pre else 1.0)
+    _n = lambda x: float(x) if isinstance(x, (int, float)) else x      # a symbolic table entry (harness run) stays a proxy
+    f = _n(_U[base].magnitude) * (_n(_P[pre].magnitude) if pre else 1.0)
     dims = [(_fr.Fraction(*d) if isinstance(d, tuple) else _fr.Fraction(d)) * e for d in _U[base].dimensions]
-    return f ** float(e), dims, {(pre, base): e}
+    return (f ** float(e) if isinstance(f, float) else f), dims, {(pre, base): e}
 def ref_units(expr):
     """unit expression text -> (factor float, [8 Fractions], {(prefix, base): Fraction exponent})"""
     if not expr: return 1.0, [_fr.Fraction(0)] * 8, {}
